@@ -344,7 +344,7 @@ def decoder_step(jid, flavour='mir', maxlen_bits=31):
                  current_value=IntV(val, 'i64'), current_value_pos=IntV(vpos, 'usize'), generated_line=IntV(gl, 'u32'))
     cell = Cell(dec)
     st.extra['dec'] = Ref(cell)
-    small = [z3.ULE(n, 40), k == n, pos == 0, val == 0, gl == 1] + [d == (1 if i == 2 else 0) for i, d in enumerate(data)]
+    small = [z3.ULE(n, 40), k == n, z3.ULE(pos, 8), val == 0, gl == 1] + [d == (1 if i == 2 else 0) for i, d in enumerate(data)]
     mf = lambda mdl: {'family': 'decoder_step', 'byte': mval(mdl, c), 'current_value_pos': mval(mdl, vpos), 'current_data_pos': mval(mdl, pos),
                       'current_value': mval(mdl, val), 'generated_line': mval(mdl, gl), 'current_data': [mval(mdl, d) for d in data]}
     for kind, s, v in api.call(m, st, DEC_NEXT, [st.extra['dec']]):
